@@ -374,7 +374,7 @@ fn check_config(rep: &Report, local: &mut Local, fc: &FullCfg, probes: &[Case]) 
 
 /// Runs `check_config` for one configuration in a child process and reports what it reported, or
 /// that it died.
-fn isolated_probe(rep: &Report, local: &mut Local, fc: &FullCfg, cj: &dyn Fn() -> Value, w: u64) {
+fn isolated_probe(rep: &Report, local: &mut Local, _fc: &FullCfg, cj: &dyn Fn() -> Value, w: u64) {
     static N: std::sync::atomic::AtomicUsize = std::sync::atomic::AtomicUsize::new(0);
     let k = N.fetch_add(1, std::sync::atomic::Ordering::SeqCst);
     let dir = std::env::temp_dir().join(format!("seqx-c07-{}-{k}", std::process::id()));
